@@ -215,7 +215,7 @@ class QSweep(Monitor):
                     )
         reps.sort(key=lambda t: t[0])
         for a in range(len(reps)):
-            for b in range(a + 1, min(len(reps), a + 12)):
+            for b in range(a + 1, len(reps) if len(reps) <= 80 else min(len(reps), a + 12)):
                 sim.oracle_checks += 1
                 qa, qb = reps[a][1], reps[b][1]
                 if qa == qb or not (qa != qb):
